@@ -52,6 +52,15 @@ CHECKS = {
               'one must satisfy them.'),
         design_ref='DESIGN.md section 5 C05',
         note='Trusted: negation tables and designated sets of vf/refsem.py.'),
+    'C06': dict(
+        category='exploration',
+        technique='Hypothesis rule-based state machine over the Branch API + exhaustive short histories + monitored whole proofs',
+        text=('Histories of appends and copies (exhaustive to a depth bound over a small alphabet, random beyond it through a '
+              'rule-based state machine) with the freshness invariant checked on every branch after every operation against '
+              'an independent walk of the nodes; and every new_constant()/new_world() request made during random first-order / '
+              'modal proofs checked at call time.'),
+        design_ref='DESIGN.md section 5 C06',
+        note='Trusted: the node walk. Exploration: absence beyond the enumerated histories is not established.'),
 }
 
 NOT_YET = 'check not built yet in this session (planned, see DESIGN.md section 5); no claim is made'
